@@ -253,7 +253,11 @@ def find_bad_calls(gdir):
     import re
     bad = []
     LEN = ("{c_var_len}", "{cfi_prefix}{c_var}->elem_len")
-    for m in re.finditer(r'Call "([^"]*)" "([^"]*)" "([^"]*)" \[(.*?)\]', txt):
+    for m in re.finditer(r'RawStore "([^"]*)" "([^"]*)" "([^"]*)"', txt):
+        if m.group(3) != "0":
+            bad.append({"statement": m.group(1), "clause": m.group(2), "what": "stores into the caller's character buffer at index '%s' without a helper that is given "
+                        "the buffer's length (a variable without trailing blanks has no room there)" % m.group(3)})
+    for m in re.finditer(r'Call "([^"]*)" "([^"]*)" "([^"]*)" \[(.*)\];?$', txt, flags=re.M):
         stmt, clause, h, args = m.groups()
         a = re.findall(r'"((?:[^"]|"")*)"', args)
         ok = True
